@@ -140,8 +140,24 @@ def rule_E2(ctx, R):
 
 # ---------------------------------------------------------------------------------------------
 def _address_functions(n):
-    """all assignments of addresses to n leaves (with repetitions: duplicates) - n^n of them"""
-    return [list(t) for t in itertools.product(range(n), repeat=n)]
+    """n <= 3: all assignments of addresses to n leaves (with repetitions: duplicates) - n^n of them.
+    Longer lists (size-dependent code paths, e.g. a different duplicate check above a length threshold): the descending
+    order, one rotation, and every single duplicated pair on top of a descending order."""
+    if n <= 3:
+        return [list(t) for t in itertools.product(range(n), repeat=n)]
+    desc = list(range(n - 1, -1, -1))
+    out = [desc, desc[1:] + desc[:1]]
+    for i in range(n):
+        for j in range(i + 1, n):
+            a = list(desc)
+            a[j] = a[i]
+            out.append(a)
+    return out
+
+
+def ctor_sizes():
+    import os
+    return (0, 1, 2, 3, 4, 5, 6, 8) if os.environ.get("HLV_TIER") == "thorough" else (0, 1, 2, 3, 5)
 
 
 def constructors(ctx):
@@ -209,7 +225,7 @@ def rule_CT(ctx, R):
         bad_l2 = bad_n1 = None
         undec = None
         built = rejected = 0
-        for n in (0, 1, 2, 3):
+        for n in ctor_sizes():
             for addrs in _address_functions(n) if n else [[]]:
                 paths, err, I = run_constructor(ctx, f, n, addrs)
                 if err:
